@@ -47,7 +47,11 @@ def helper_function(first_argument):
     return [local_value + loop_variable for loop_variable in range(3)][-1] + len(os.sep)
 
 
-print(handler('ab', 'cd'), helper_function(2), Handler().method_name(1), sorted(n for n in dir() if not n.startswith('_')) if {DIR} else 0)
+def scale_values(repeated_argument, scale_factor=2):
+    return repeated_argument * scale_factor + repeated_argument + repeated_argument + repeated_argument + scale_factor
+
+
+print(handler('ab', 'cd'), helper_function(2), Handler().method_name(1), scale_values(3), sorted(n for n in dir() if not n.startswith('_')) if {DIR} else 0)
 '''
 ALL_FORMS = {'none': '', 'assign': "__all__ = ['handler', 'Handler']", 'augassign': "__all__ = []\n__all__ += ['helper_function']",
              'annotated': "__all__: list = ['module_counter']", 'tuple-not-list': "__all__ = ('handler',)",
@@ -59,7 +63,8 @@ ALL_NAMES = {'none': [], 'assign': ['handler', 'Handler'], 'augassign': ['helper
 OTHERS_OFF = dict(remove_literal_statements=False, combine_imports=False, remove_annotations=False, remove_pass=False, remove_object_base=False, remove_asserts=False,
                   remove_debug=False, remove_explicit_return_none=False, constant_folding=False, remove_builtin_exception_brackets=False, convert_posargs_to_args=False,
                   hoist_literals=False)
-LOCAL_LISTS = [[], ['local_value'], ['local_value', 'another_local'], ['first_argument'], ['loop_variable'], ['nested_local', 'inner_argument'], ['absent_name'], ['len']]
+# repeated_argument: a parameter mentioned often enough for the renamer to re-bind it in the body (`A=repeated_argument`) when it may be renamed
+LOCAL_LISTS = [[], ['local_value'], ['local_value', 'another_local'], ['first_argument'], ['repeated_argument'], ['loop_variable'], ['nested_local', 'inner_argument'], ['absent_name'], ['len']]
 GLOBAL_LISTS = [[], ['handler'], ['helper_function', 'Handler'], ['module_counter', 'shared_message'], ['absent_name'], ['os'], ['print', 'len']]
 
 
@@ -303,7 +308,7 @@ def run(args, rep):
     string_forms_remote(args, rep)
     rep.exhaustive = False
     rep.rule = ('(a) enumerated scope programs of Rename.tla with x in preserve_locals / preserve_globals / both; (b) a module with locals, parameters, nested functions, '
-                'a comprehension, classes and globals x 5 __all__ forms x 3 (rename_locals, rename_globals) pairs x 8 local lists x 7 global lists x list/string form, '
+                'a comprehension, classes and globals x 5 __all__ forms x 3 (rename_locals, rename_globals) pairs x 9 local lists x 7 global lists x list/string form, '
                 'and awslambda() entrypoints; non-trivial = jobs that list at least one name the module binds')
     rep.extra.update({'programs_enumerated_by_tlc': total, 'scope_programs_replayed': len(progs), 'module_jobs': len(jobs), 'skipped': skipped,
                       'checker_cmd': 'tlc Rename.tla; tlc Trace_Rename.tla; tlc Trace_Preserve.tla'})
